@@ -138,6 +138,8 @@ pub struct Obs {
     pub flow_ids: BTreeMap<(Tag, usize), u32>,
     /// oracle violations raised inside actors (key, description)
     pub violations: Vec<(String, String)>,
+    /// what each sequential stream actor is currently doing: (tag, side) -> op
+    pub current_op: BTreeMap<(Tag, usize), Op>,
 }
 
 pub type ObsRef = Rc<RefCell<Obs>>;
@@ -285,6 +287,7 @@ async fn do_read<S: tokio::io::AsyncRead + Unpin>(s: &mut S, obs: &ObsRef, tag: 
 pub async fn run_ops<S: RW>(mut s: S, obs: ObsRef, tag: Tag, side: usize, wdir: u8, ops: Vec<Op>, keep_going: bool) {
     let rdir = 1 - wdir;
     for op in ops {
+        obs.borrow_mut().current_op.insert((tag, side), op.clone());
         match op {
             Op::W(n) => {
                 if !do_write(&mut s, &obs, tag, wdir, &[n], false).await && !keep_going {
@@ -345,6 +348,7 @@ pub async fn run_ops<S: RW>(mut s: S, obs: ObsRef, tag: Tag, side: usize, wdir: 
     }
     {
         let mut o = obs.borrow_mut();
+        o.current_op.remove(&(tag, side));
         o.dir(tag, wdir).writer_done = true;
         o.dir(tag, rdir).reader_done = true;
         o.ev(Ev::Dropped { tag, side });
@@ -357,6 +361,8 @@ pub async fn run_ops<S: RW>(mut s: S, obs: ObsRef, tag: Tag, side: usize, wdir: 
 pub enum EndPlan {
     /// one task, sequential operations
     Seq(Vec<Op>),
+    /// as `Seq` but carries on after a failed write (to observe later operations)
+    SeqKeep(Vec<Op>),
     /// two tasks on split halves: (writer ops, reader ops)
     Split(Vec<Op>, Vec<Op>),
 }
@@ -364,6 +370,7 @@ pub enum EndPlan {
 pub fn plan_str(p: &EndPlan) -> String {
     match p {
         EndPlan::Seq(o) => format!("seq[{}]", op_str(o)),
+        EndPlan::SeqKeep(o) => format!("seq*[{}]", op_str(o)),
         EndPlan::Split(w, r) => format!("split[w:{} | r:{}]", op_str(w), op_str(r)),
     }
 }
@@ -372,13 +379,15 @@ pub fn start_end(sp: &Spawner, obs: &ObsRef, stream: MuxStream, tag: Tag, side: 
     let (fid, ..) = stream.verif_state();
     obs.borrow_mut().flow_ids.insert((tag, side), fid);
     match plan {
-        EndPlan::Seq(ops) => {
+        EndPlan::Seq(_) | EndPlan::SeqKeep(_) => {
+            let keep = matches!(plan, EndPlan::SeqKeep(_));
+            let (EndPlan::Seq(ops) | EndPlan::SeqKeep(ops)) = plan else { unreachable!() };
             let name = format!("s{tag}.{}", if side == 0 { "a" } else { "b" });
             obs.borrow_mut().begin(&name);
             let o2 = obs.clone();
             let n2 = name.clone();
             sp.spawn(name, GROUP_NONE, async move {
-                run_ops(stream, o2.clone(), tag, side, wdir, ops, false).await;
+                run_ops(stream, o2.clone(), tag, side, wdir, ops, keep).await;
                 o2.borrow_mut().end(&n2);
             });
         }
